@@ -2,6 +2,8 @@ import WhVerif.Util.Proto
 import WhVerif.Spec.C01
 import WhVerif.Model.C01Gray
 import WhVerif.Model.C01Witness
+import WhVerif.Model.C01Ckpt
+import WhVerif.Model.C01U32
 import WhVerif.Model.C01Input
 namespace WhVerif.Driver.C01
 open Lean WhVerif.Proto WhVerif.C01
@@ -156,5 +158,28 @@ def handle (op : String) (j : Json) : Option Json :=
     match getNat? j "n" with
     | some n => some (ofList (fun p => Json.arr #[ofNat p.1, ofInt p.2]) (WhVerif.C01.grayList n))
     | none => some badInput
+  else if op == "c01.ckpt" then
+    -- `compute_table` as coded (stored backtrace tables, check-pointing every k-th column, Gray-code order)
+    match getInst j with
+    | .bad => some badInput
+    | .rejected w => some (rejected w)
+    | .ok I =>
+      let k := (getNat? j "k").getD (isqrt I.ncols)
+      let ord : Ord := if getStr? j "ord" == some "index" then idxOrd else grayOrd
+      match ckptPathK I ord k with
+      | none => some (Json.mkObj [("k", ofNat k), ("path", Json.null)])
+      | some path =>
+        some (Json.mkObj [("k", ofNat k), ("path", ofList (fun p => ofNatList [p.1, p.2]) path),
+          ("beta", ofBoolList (partOf I path)), ("tau", ofNatList (path.map (·.2))),
+          ("superreads", ofList (fun (o : Option (List (Nat × Nat))) => match o with
+            | none => Json.null
+            | some l => ofList (fun p => ofNatList [p.1, p.2]) l) (superReadsOf I path))])
+  else if op == "c01.cost32" then
+    -- the DP in the code's 32-bit arithmetic with UINT_MAX as infinity, and the no-overflow bound
+    match getInst j with
+    | .bad => some badInput
+    | .rejected w => some (rejected w)
+    | .ok I =>
+      some (Json.mkObj [("cost32", ofNat (dpCost32 I)), ("throws", Json.bool (throws32 I)), ("ub", ofNat (ubAll I))])
   else none
 end WhVerif.Driver.C01
